@@ -8,7 +8,8 @@ F5_SIG = "cbo-twice"
 
 def classify(ro):
     # known finding F5 (C03): the origin placeholder re-enters the mock when the stack must grow
-    if ro.get("got") == "cbo-twice":
+    # (also while a preemption request is pending: the runtime then makes every stack check fail once)
+    if ro.get("got") == "cbo-twice" or (ro.get("op") == "CallPh" and ro.get("want") == "orig" and ro.get("got") == "cbo"):
         ro["finding"] = "F5"
 
 
